@@ -108,6 +108,18 @@ let model_step (e : ecfg) (v : vec) (l : line) : mres option =
   | ["drain"; s; en; f; b] -> (match drain v (bound_of s) (bound_of en) (nat_of_int (int_of_string f)) (nat_of_int (int_of_string b)) with
       | Ret d -> keep { m_res = "front:" ^ show_ids d.d_taken_front ^ ";back:" ^ show_ids d.d_taken_back; m_vec = d.d_vec; m_drops = d.d_dropped; m_exact_drops = true }
       | Panic _ -> keep { m_res = "panic"; m_vec = v; m_drops = []; m_exact_drops = true })
+  | ["splice"; s; en; xs; t] ->
+    (* the driver's iterator reports the constant lower size hint ceil(n/2); the caller takes the
+       first t removed items, Splice::drop drops the others, front to back *)
+    let items = ids_of xs in
+    let hint = n_of_z (Z.of_int ((List.length items + 1) / 2)) in
+    (match splice e v (bound_of s) (bound_of en) items hint hint with
+     | Ret r ->
+       let t = int_of_string t in
+       let rec split k l = if k = 0 then ([], l) else (match l with [] -> ([], []) | x :: r -> let (a, b) = split (k - 1) r in (x :: a, b)) in
+       let (taken, dropped) = split t r.s_removed in
+       keep { m_res = "taken:" ^ show_ids taken; m_vec = r.s_vec; m_drops = dropped; m_exact_drops = true }
+     | Panic _ -> keep { m_res = "panic"; m_vec = v; m_drops = []; m_exact_drops = false })
   | ["retain"; a] ->
     let d = retain v (ans_of a) in
     keep { m_res = (if d.df_panicked then "panic" else "unit"); m_vec = d.df_vec; m_drops = d.df_dropped; m_exact_drops = true }
